@@ -368,7 +368,14 @@ def pmap(fn, items, jobs=None, chunksize=1):
     with ProcessPoolExecutor(jobs) as ex:
         futs = [ex.submit(fn, it) for it in items]
         for f in as_completed(futs):
-            yield f.result()
+            try:
+                yield f.result()
+            except Exception:
+                # a worker that raised or died (e.g. killed for memory) is an inconclusive case, not the end of the check
+                import traceback
+                oc = Outcome("worker-failure")
+                oc.inconclusive.append("worker failed: %s" % traceback.format_exc()[-600:])
+                yield oc
 
 
 def harness_error(prop, msg):
